@@ -102,6 +102,13 @@ theorem blockChild_leaves (h : ImageHeaderFields) (mm : Bool) (bands bd : Nat) (
   · show (mkLeaf _ _ _).leaves = _
     rw [mkLeaf_leaves]
 
+/-- a recorded block never refuses a normalised subscript -/
+theorem blockChild_total (h : ImageHeaderFields) (mm : Bool) (bands bd : Nat) (b : Nat × Nat × Nat × Nat) (off : Nat) :
+    (blockChild h mm bands bd b off).2.total = true := by
+  unfold blockChild
+  simp only []
+  split <;> cases mm <;> rfl
+
 theorem subsetDef_normal (R C rr cc bands bd : Nat) (hr : 0 < rr) (hr' : rr ≤ R) (hc : 0 < cc) (hc' : cc ≤ C) (hb : 0 < bands) :
     allSlicesNormal (getShape R C bands bd) (subsetDef rr cc bands bd) = true := by
   rcases lay_cases bands bd with h | ⟨h, h'⟩ | ⟨h, h'⟩ | ⟨h, h', h''⟩ <;>
@@ -116,8 +123,10 @@ theorem blockChild_wf (h : ImageHeaderFields) (mm : Bool) (bands bd : Nat) (b : 
   simp only []
   split
   · exact idLeaf_wf _ _ _ hrank
-  · show ((Seg.orient [] _ _).wf && allSlicesNormal (Seg.orient [] _ _).fshape _) = true
+  · show ((Seg.orient [] _ _).wf && allSlicesNormal (Seg.orient [] _ _).fshape _ && (Seg.orient [] _ _).rawOK _) = true
     rw [idLeaf_wf _ _ _ hrank, idLeaf_fshape, Bool.true_and]
+    show (allSlicesNormal _ _ && true) = true
+    rw [Bool.and_true]
     apply subsetDef_normal <;> omega
 
 theorem boxOK_boxDef (R C r0 re c0 ce bands bd : Nat) (hr : r0 < re) (hr' : re ≤ R) (hc : c0 < ce) (hc' : ce ≤ C) (hb : 0 < bands) :
